@@ -60,8 +60,16 @@ def _run(prop, rep, work, jobs, res):
 
     def one(w):
         return w, mutant_test.run(w[0], [prop], quiet=True)
+    def no_verdict(out):
+        # the scratch copy could not be analysed at all (e.g. the compiler was killed on an overloaded machine): that is neither a
+        # report nor silence
+        return out is not None and (out[prop][0] not in (0, 1) or "CHECKER-ERROR" in (out[prop][2] or ""))
     with concurrent.futures.ThreadPoolExecutor(max_workers=jobs) as ex:
-        for (patch, want), out in ex.map(one, work):
+        results = list(ex.map(one, work))
+    # such a patch is analysed once more, on its own
+    results = [one(w) if no_verdict(out) else (w, out) for w, out in results]
+    if True:
+        for (patch, want), out in results:
             name = os.path.relpath(patch, VERIF)
             if out is None:
                 res["skipped"] += 1
